@@ -591,13 +591,6 @@ func runWorkspace(ctx context.Context, r *evid.Run, st *cliStats, scratch string
 				} else {
 					run.after = readAll(sp.out, targetLogical, false)
 				}
-			case "build-o":
-				if info, err := os.Stat(sp.out); err == nil && info.Size() > 0 {
-					st.buildOutputWritten.Add(1)
-				} else if res.ExitCode == 0 && !timedOut {
-					results[format] = res
-					r.Violate("cli/exit-0-but-no-image/build-o", "buf build -o exits 0 but wrote no image", mk(format, ""))
-				}
 			}
 			if timedOut {
 				cut = true
@@ -605,6 +598,14 @@ func runWorkspace(ctx context.Context, r *evid.Run, st *cliStats, scratch string
 			}
 			results[format] = res
 			runs[format] = run
+			if cmd == "build-o" {
+				// exit 0 says "nothing to report, the image was built"
+				if info, err := os.Stat(sp.out); err == nil && info.Size() > 0 {
+					st.buildOutputWritten.Add(1)
+				} else if res.ExitCode == 0 {
+					r.Violate("cli/exit-0-but-no-image/build-o", "buf build -o exits 0 but wrote no image", mk(format, ""))
+				}
+			}
 			r.Eval(1)
 			st.runs.Add(1)
 			st.count(cmd + "/" + format)
